@@ -65,7 +65,8 @@ type World struct {
 	Keyed       bool
 	Real        bool // real block cycle and signed transactions (ante engine)
 	rcptSeen    map[string]bool
-	named       []string // "<tenant> <request id token>", the latest ones the history named
+	txCtx       *sdk.Context // set while the messages of an `atomic` transaction run
+	named       []string     // "<tenant> <request id token>", the latest ones the history named
 	// PermSeed != 0 perturbs nothing in the implementation (Go randomises map order itself); kept for symmetry
 }
 
@@ -289,6 +290,14 @@ func (w *World) AccStr(tok string) string {
 	if tok == "empty" {
 		return ""
 	}
+	switch tok {
+	case "mdistr":
+		return authtypes.NewModuleAddress(distrtypes.ModuleName).String()
+	case "mpool":
+		return authtypes.NewModuleAddress(otypes.ModuleName).String()
+	case "mcollector":
+		return authtypes.NewModuleAddress(authtypes.FeeCollectorName).String()
+	}
 	i, _ := strconv.Atoi(tok[1:])
 	switch tok[0] {
 	case 'a':
@@ -411,13 +420,22 @@ func errLine(err error) (string, string) { return "err", err.Error() }
 
 // msgTx executes f in a cache context and writes it only on success, as baseapp does for a message.
 func (w *World) msgTx(f func(ctx sdk.Context) (string, error)) (res Result) {
-	ctx := w.at()
-	cctx, write := ctx.CacheContext()
 	defer func() {
 		if p := recover(); p != nil {
 			res = Result{Line: "panic", Detail: fmt.Sprint(p), Panic: true}
 		}
 	}()
+	if w.txCtx != nil {
+		// inside an `atomic` transaction: the message runs on the transaction's branch, which is written or discarded as a whole
+		line, err := f(*w.txCtx)
+		if err != nil {
+			l, d := errLine(err)
+			return Result{Line: l, Detail: d}
+		}
+		return Result{Line: line}
+	}
+	ctx := w.at()
+	cctx, write := ctx.CacheContext()
 	line, err := f(cctx)
 	if err != nil {
 		l, d := errLine(err)
@@ -425,6 +443,34 @@ func (w *World) msgTx(f func(ctx sdk.Context) (string, error)) (res Result) {
 	}
 	write()
 	return Result{Line: line, Events: cctx.EventManager().Events()}
+}
+
+var atomicKinds = map[string]bool{"createtenant": true, "deposit": true, "record": true, "cancel": true, "addadmin": true, "rmadmin": true,
+	"setperiod": true, "prevote": true, "vote": true, "consent": true}
+
+func (w *World) atomic(msgs []string) (res Result) {
+	ctx := w.at()
+	cctx, write := ctx.CacheContext()
+	for _, m := range msgs {
+		w.noteNamed(strings.Fields(m)) // every request id the transaction names, whether or not it gets that far
+	}
+	w.txCtx = &cctx
+	defer func() { w.txCtx = nil }()
+	for i, m := range msgs {
+		f := strings.Fields(m)
+		if len(f) == 0 || !atomicKinds[f[0]] {
+			return Result{Line: "bad-op"}
+		}
+		r := w.exec(m)
+		if r.Panic {
+			return r
+		}
+		if !strings.HasPrefix(r.Line, "ok") {
+			return Result{Line: fmt.Sprintf("err %d", i), Detail: r.Detail}
+		}
+	}
+	write()
+	return Result{Line: fmt.Sprintf("ok %d", len(msgs)), Events: cctx.EventManager().Events()}
 }
 
 func u64(tok string) uint64 {
@@ -461,7 +507,9 @@ func (w *World) exec(line string) Result {
 	if len(f) == 0 {
 		return Result{Line: "bad-op"}
 	}
-	w.noteNamed(f)
+	if w.txCtx == nil {
+		w.noteNamed(f)
+	}
 	switch f[0] {
 	case "createtenant": // sender denom period [contract]
 		return w.msgTx(func(ctx sdk.Context) (string, error) {
@@ -654,6 +702,8 @@ func (w *World) exec(line string) Result {
 	case "setval": // v power bonded(0/1) jailed(0/1) probonoRate|-
 		w.setVal(f[1], int64(u64(f[2])), f[3] == "1", f[4] == "1", f[5])
 		return Result{Line: "ok"}
+	case "atomic": // msg ;; msg ;; ... : one transaction of several messages, executed the way baseapp does (one branch, all or nothing)
+		return w.atomic(strings.Split(strings.TrimPrefix(line, "atomic "), " ;; "))
 	case "failat": // k : fail the k-th backend call of the next block
 		k, _ := strconv.Atoi(f[1])
 		ff := w.Faults()
